@@ -373,19 +373,23 @@ func c35Gen(r *vu.Rng, i int) []string {
 		}
 		return []string{"uni " + vu.Hex(data)}
 	case k < 86: // the frame loop of the real serverConn.parseHeader: frames before a valid HEADERS frame
+		// Exact frame lengths only: the field validation of parseHeader is not modelled, so the only
+		// HEADERS frame the parse may reach is the valid one appended at the end.
 		var data []byte
 		for n := r.Intn(4); n > 0; n-- {
 			ft := []uint64{0x21, 0x40, 0x2, 0x6, 1 << 20, 0x21 + 0x1f*7}[r.Intn(6)]
 			if r.Chance(1, 8) {
-				ft = c35FrameTypes[r.Intn(len(c35FrameTypes))]
+				ft = []uint64{0, 3, 4, 5, 7, 0xd}[r.Intn(6)]
 			}
-			if ft == 1 {
-				ft = 0x21
-			}
-			data = append(data, c35Frame(r, ft)...)
+			payload := r.Bytes(r.Intn(12))
+			data = append(data, c35NonMinimalVarint(r, ft)...)
+			data = append(data, c35NonMinimalVarint(r, uint64(len(payload)))...)
+			data = append(data, payload...)
+		}
+		if len(data) > 0 && r.Chance(1, 8) {
+			return []string{"phdr " + vu.Hex(data[:r.Intn(len(data))])} // stream ends inside the prefix
 		}
 		data = append(data, c35ValidRequestHeaders()...)
-		data = append(data, c35Frames(r, r.Intn(2))...)
 		return []string{"phdr " + vu.Hex(data)}
 	default: // request stream through genericConn + the harness request handler
 		data := c35RequestStream(r)
